@@ -97,11 +97,11 @@ fn check_identity(ctx: &mut Ctx, c: &IdCase) -> Res {
         if ltk.srv_value() != srv.as_slice() || LongTermKey::calc_srv_value(&pk) != srv {
             return ctx.fail("srv-value-wrong", format!("seed {}: SRV {} but first32(SHA-512(0xff||pk)) = {}", hex(seed), hex(ltk.srv_value()), hex(&srv)));
         }
-        let shared = OnlineKey::new();
+        let mut shared = OnlineKey::new();
         for &ietf in order {
             ctx.eval();
-            let fresh = OnlineKey::new();
-            let online = if c.same_online { &shared } else { &fresh };
+            let mut fresh = OnlineKey::new();
+            let online = if c.same_online { &mut shared } else { &mut fresh };
             let online_pk = online.make_dele().get_field(roughenough::Tag::PUBK).map(|p| p.to_vec()).unwrap_or_default();
             let cert = match no_unwind(|| ltk.make_cert(&ver(ietf), online).encode().unwrap()) {
                 Ok(c) => c,
@@ -111,6 +111,21 @@ fn check_identity(ctx: &mut Ctx, c: &IdCase) -> Res {
             let certified = check_cert(ctx, proto, &cert, &pk, None)?;
             if !certified.is_empty() && certified != online_pk {
                 return ctx.fail("cert|wrong-online-key", format!("certificate delegates to {} but the online key is {}", hex(&certified), hex(&online_pk)));
+            }
+            // responses this key signs now and during the next ten minutes carry a midpoint inside that certificate's window
+            for ahead in [0u64, 30, 100, 300, 600] {
+                let when = std::time::SystemTime::now() + Duration::from_secs(ahead);
+                let root = vec![0x5au8; if ietf { 32 } else { 64 }];
+                let srep = match no_unwind(|| online.make_srep(ver(ietf), when, &root)) {
+                    Ok(s) => s,
+                    Err(p) => return ctx.fail("make-srep-panic", p),
+                };
+                let inner = srep.get_field(roughenough::Tag::SREP).and_then(|b| Msg::decode_any(b).ok());
+                if let Some(midp) = inner.and_then(|m| m.get(rc::MIDP).and_then(|v| <[u8; 8]>::try_from(v).ok()).map(u64::from_le_bytes)) {
+                    if let Err(v) = check_cert(ctx, proto, &cert, &pk, Some(midp)) {
+                        return Err(Viol { sig: format!("{}|{}s-after-issue", v.sig, ahead), what: format!("{} ({} s after the certificate was issued)", v.what, ahead) });
+                    }
+                }
             }
             if ietf {
                 both.1 = true
@@ -141,11 +156,21 @@ pub struct SrvIdCase {
     /// port 0): certificates sent afterwards are as good as before
     #[serde(default)]
     pub unsendable_first: bool,
+    /// index into procs::IDENTITY_ZONES: TZ of the process while the server is built and serves
+    #[serde(default)]
+    pub tz: u8,
 }
 
 fn check_server_identity(ctx: &mut Ctx, c: &SrvIdCase) -> Res {
     let pk = RefKey::from_seed(&c.seed.0).public();
     let mut online_keys = std::collections::HashSet::new();
+    let zone = super::procs::IDENTITY_ZONES[c.tz as usize % super::procs::IDENTITY_ZONES.len()];
+    if zone.is_empty() {
+        std::env::remove_var("TZ");
+    } else {
+        std::env::set_var("TZ", zone);
+        ctx.class("c10:server:under-a-far-time-zone");
+    }
     for r in 0..c.restarts {
         let status_interval = if c.interval_ms == 0 { Duration::from_secs(600) } else { Duration::from_millis(c.interval_ms as u64) };
         let mut lab = match Lab::new(LabCfg { seed: c.seed.0.clone(), batch_size: c.batch_size, status_interval, ..Default::default() }, 16) {
@@ -230,7 +255,7 @@ pub fn run_c10(ctx: &mut Ctx) -> Vec<Violation> {
         check_identity(ctx, c)
     }));
     let srv = (seed32(), 1u8..=3, prop::sample::select(vec![1u8, 2, 7, 64]), proptest::collection::vec(std_req(), 1..=12), prop_oneof![5 => Just((0u16, 0u16)), 1 => (20u16..=60, 70u16..=160)], prop::bool::weighted(0.3))
-        .prop_map(|(seed, restarts, batch_size, reqs, (interval_ms, pause_ms), unsendable_first)| SrvIdCase { interval_ms, pause_ms, seed, restarts, batch_size, reqs, unsendable_first });
+        .prop_map(|(seed, restarts, batch_size, reqs, (interval_ms, pause_ms), unsendable_first)| { let tz = if seed.0[7] % 2 == 0 { 0 } else { seed.0[8] % 6 }; SrvIdCase { interval_ms, pause_ms, seed, restarts, batch_size, reqs, unsendable_first, tz } });
     out.extend(run_prop(ctx, "server", t.pick(4_000, 40_000), 200, srv, |ctx, c| {
         ctx.sample("server", 1, &(c.seed.clone(), c.restarts, c.reqs.len()));
         check_server_identity(ctx, c)
@@ -455,6 +480,62 @@ fn check_live(ctx: &mut Ctx, c: &LiveCase) -> Res {
     Ok(())
 }
 
+/// with deliberate faults on, whatever reply still verifies in full states the server clock like any other reply
+#[derive(Debug, Clone, Serialize, Deserialize)]
+pub struct FaultTime {
+    pub p: u8,
+    pub batch_size: u8,
+    pub replies: u32,
+}
+
+fn check_fault_time(ctx: &mut Ctx, c: &FaultTime) -> Res {
+    let mut lab = match Lab::new(LabCfg { seed: vec![0x21; 32], batch_size: c.batch_size, fault: c.p, ..Default::default() }, 48) {
+        Ok(l) => l,
+        Err(e) => return ctx.fail("server-new-failed", e),
+    };
+    let pk = lab.pk.clone();
+    let (mut seen, mut valid) = (0u32, 0u32);
+    let mut k = 0u32;
+    while seen < c.replies {
+        let mut sends = vec![];
+        for j in 0..96usize {
+            k += 1;
+            let proto = if k % 2 == 0 { Proto::Ietf } else { Proto::Classic };
+            let nonce = crate::refcrypto::sha512(&[&b"c11-fault"[..], &k.to_le_bytes()[..]])[..proto.nonce_len()].to_vec();
+            sends.push((j % 48, build_request(proto, &nonce, 1024, &[VER_DRAFT13], None), proto));
+        }
+        let plain: Vec<(usize, Vec<u8>)> = sends.iter().map(|s| (s.0, s.1.clone())).collect();
+        let res = match lab.step(&plain, plain.len()) {
+            Ok(r) => r,
+            Err(StepErr::Panic(p)) => return ctx.fail("process-events-panic", p),
+            Err(StepErr::Wedged(m)) => return ctx.fail("wedged", m),
+        };
+        let t0 = res.t0.duration_since(std::time::UNIX_EPOCH).unwrap().as_nanos();
+        let t1 = res.t1.duration_since(std::time::UNIX_EPOCH).unwrap().as_nanos();
+        for (sock, rs) in res.replies.iter().enumerate() {
+            for r in rs {
+                ctx.eval();
+                seen += 1;
+                if let Some((proto, info)) = sends.iter().filter(|s| s.0 == sock).find_map(|s| verify_strict(s.2, &s.1, r, &pk).ok().map(|i| (s.2, i))) {
+                    valid += 1;
+                    let unit: u128 = if proto == Proto::Classic { 1_000 } else { 1_000_000_000 };
+                    let lo = info.midp as u128 * unit;
+                    const SLACK: u128 = 2_000_000_000;
+                    if lo + unit + SLACK < t0 || lo > t1 + SLACK {
+                        return ctx.fail(
+                            format!("fault-injection|valid-reply-with-wrong-time|{}", proto.name()),
+                            format!("fault_percentage {}: a reply that verifies in full states MIDP {} ({}), but the step ran between {} ns and {} ns since the epoch", c.p, info.midp, proto.name(), t0, t1),
+                        );
+                    }
+                }
+            }
+        }
+    }
+    ctx.class(&format!("c11:fault-time:p={}", c.p));
+    ctx.nontrivial(&("fault-time", c.p, c.batch_size, valid));
+    Ok(())
+}
+
 pub fn run_c11(ctx: &mut Ctx) -> Vec<Violation> {
     install_logger(log::LevelFilter::Off);
     let t = ctx.tier;
@@ -478,6 +559,12 @@ pub fn run_c11(ctx: &mut Ctx) -> Vec<Violation> {
         ctx.sample("clock-sequences", 1, c);
         check_clock_seq(ctx, c)
     }));
+    // fault injection on: replies that still verify must still tell the time
+    {
+        let n = t.pick(4_000, 40_000);
+        let cases: Vec<FaultTime> = [(50u8, 64u8), (50, 1), (50, 7), (40, 64), (50, 16), (30, 3), (50, 2), (50, 33), (45, 64), (50, 4), (50, 64), (50, 8), (50, 1), (50, 32), (25, 64), (50, 5)].iter().map(|(p, b)| FaultTime { p: *p, batch_size: *b, replies: n }).collect();
+        out.extend(run_enum(ctx, "fault-valid-time", cases.len() as u64, |i| cases[i as usize].clone(), |ctx, c| check_fault_time(ctx, c)));
+    }
     // live: young servers (many) and aged servers (few; each costs > 1 s of sleeping)
     let young = (seed32(), prop::sample::select(vec![1u8, 3, 64]), proptest::collection::vec(0u16..3, 1..=3), proptest::collection::vec(std_req(), 1..=10)).prop_map(|(seed, batch_size, waits_ms, reqs)| LiveCase { seed, batch_size, waits_ms, reqs, sentinel_ietf: None, junk_before_wait: 0 });
     out.extend(run_prop(ctx, "live-young", t.pick(6_000, 60_000), 50, young, |ctx, c| check_live(ctx, c)));
@@ -560,6 +647,10 @@ fn check_tz(ctx: &mut Ctx, c: &TzCase) -> Res {
 pub fn replay_c11(ctx: &mut Ctx, sub: &str, case: &Value) -> Res {
     if sub == "tz-real-binary" {
         return replay_case::<TzCase, _>(ctx, case, |ctx, c| check_tz(ctx, c));
+    }
+    if sub == "fault-valid-time" {
+        install_logger(log::LevelFilter::Off);
+        return replay_case::<FaultTime, _>(ctx, case, |ctx, c| check_fault_time(ctx, c));
     }
     if sub == "burst-real-binary" {
         return super::procs::replay_c18(ctx, sub, case);
